@@ -1178,11 +1178,11 @@ impl<'a> Parser<'a> {
         let mut paren_depth = 0;
         let is_tuple = (1..MAX_LOOKAHEAD)
             .find_map(|i| match self.peek_ahead(i) {
-                Some(TokenKind::ParenBegin) => {
+                Some(TokenKind::ParenBegin | TokenKind::BlockBegin | TokenKind::ArrayBegin) => {
                     paren_depth += 1;
                     None
                 }
-                Some(TokenKind::ParenEnd) => {
+                Some(TokenKind::ParenEnd | TokenKind::BlockEnd | TokenKind::ArrayEnd) => {
                     if paren_depth == 0 {
                         Some(false)
                     } else {
@@ -1429,18 +1429,26 @@ impl<'a> Parser<'a> {
             return false;
         }
 
-        // Look ahead to find comma before ParenEnd
+        // Look ahead to find comma before ParenEnd. Commas inside nested brackets of any kind
+        // (`({a = 1, b = 2})`) and between the bars of a lambda (`(|x, y| x + y)`) belong to
+        // the nested construct, not to this parenthesis.
         let mut depth = 0;
+        let mut in_lambda_params = false;
         for i in 1..MAX_LOOKAHEAD {
             match self.peek_ahead(i) {
-                Some(TokenKind::ParenBegin) => depth += 1,
-                Some(TokenKind::ParenEnd) => {
+                Some(TokenKind::ParenBegin | TokenKind::BlockBegin | TokenKind::ArrayBegin) => {
+                    depth += 1
+                }
+                Some(TokenKind::ParenEnd | TokenKind::BlockEnd | TokenKind::ArrayEnd) => {
                     if depth == 0 {
                         return false; // no comma found
                     }
                     depth -= 1;
                 }
-                Some(TokenKind::Comma) if depth == 0 => return true,
+                Some(TokenKind::LambdaArgBeginEnd) if depth == 0 => {
+                    in_lambda_params = !in_lambda_params
+                }
+                Some(TokenKind::Comma) if depth == 0 && !in_lambda_params => return true,
                 None => return false,
                 _ => {}
             }
